@@ -137,11 +137,21 @@ class SS58Decoder:
         # Decode string
         dec_bytes = Base58Decoder.Decode(data_str)
 
+        # At least the format bytes shall be present
+        if len(dec_bytes) < 2:
+            raise ValueError(f"Invalid data length ({len(dec_bytes)})")
+        # First bytes from 128 to 255 are reserved
+        if dec_bytes[0] & 0x80:
+            raise ValueError(f"Invalid SS58 format (reserved first byte: {dec_bytes[0]})")
+
         # Full address
         if dec_bytes[0] & 0x40:
             ss58_format_len = 2
             ss58_format = ((dec_bytes[0] & 0x3F) << 2) | (dec_bytes[1] >> 6) | \
                           ((dec_bytes[1] & 0x3F) << 8)
+            # Formats up to 63 shall be encoded with a single byte
+            if ss58_format <= SS58Const.SIMPLE_ACCOUNT_FORMAT_MAX_VAL:
+                raise ValueError(f"Invalid SS58 format (not canonical: {ss58_format})")
         # Simple account
         else:
             ss58_format_len = 1
